@@ -1091,7 +1091,14 @@ func (d *indexData) newMatchTree(q query.Q, opt matchTreeOpt) (matchTree, error)
 		checksum := queryMetaChecksum(s.Field, s.Value)
 		cacheKeyField := "Meta"
 		if cached, ok := d.docMatchTreeCache.Get(cacheKeyField, checksum); ok {
-			return cached, nil
+			// The cached tree is shared by all searches on this shard. Its
+			// iteration state (firstDone, docID) must not be: hand out a copy
+			// with a fresh cursor.
+			return &docMatchTree{
+				reason:    cached.reason,
+				numDocs:   cached.numDocs,
+				predicate: cached.predicate,
+			}, nil
 		}
 
 		reposWant := make([]bool, len(d.repoMetaData))
